@@ -42,6 +42,65 @@ def repo_root() -> str:
 _INSTALLED = []
 
 
+# --- fast re-import of the methodology modules ------------------------------
+# A simulated run re-executes the modules under test several times (one module
+# set for the object under test, private ones for references).  The stock
+# import machinery costs ~5 ms per module set in path lookups and bytecode
+# reads; this finder serves `matched_markets.methodology.<name>` from code
+# objects compiled once per (path, mtime, size) in the worker, ~1 ms per set.
+_CODE_CACHE = {}
+
+
+def _code_for(path):
+  st = os.stat(path)
+  key = (path, st.st_mtime_ns, st.st_size)
+  code = _CODE_CACHE.get(key)
+  if code is None:
+    with open(path, 'rb') as f:
+      code = compile(f.read(), path, 'exec', dont_inherit=True)
+    _CODE_CACHE[key] = code
+  return code
+
+
+class _FastLoader:
+
+  def __init__(self, path):
+    self._path = path
+
+  def create_module(self, spec):
+    del spec
+    return None
+
+  def exec_module(self, module):
+    exec(_code_for(self._path), module.__dict__)  # pylint: disable=exec-used
+
+
+class _FastFinder:
+  """Meta path finder for the methodology modules of the tree under test."""
+  PREFIX = 'matched_markets.methodology.'
+
+  def find_spec(self, fullname, path=None, target=None):
+    del path, target
+    if not fullname.startswith(self.PREFIX):
+      return None
+    name = fullname[len(self.PREFIX):]
+    if '.' in name:
+      return None
+    filename = os.path.join(methodology_dir(), name + '.py')
+    if not os.path.isfile(filename):
+      return None
+    import importlib.util  # pylint: disable=g-import-not-at-top
+    spec = importlib.util.spec_from_loader(fullname, _FastLoader(filename),
+                                           origin=filename)
+    spec.has_location = True
+    return spec
+
+
+def _install_fast_finder():
+  if not any(isinstance(f, _FastFinder) for f in sys.meta_path):
+    sys.meta_path.insert(0, _FastFinder())
+
+
 def load_module_set(names, install):
   """The named methodology modules, re-executed from source.
 
@@ -55,6 +114,7 @@ def load_module_set(names, install):
   the new set lives on only through the returned module objects.
   """
   install_repo_path()
+  _install_fast_finder()
   import importlib  # pylint: disable=g-import-not-at-top
   prefix = 'matched_markets.methodology.'
   pkg = importlib.import_module('matched_markets.methodology')
